@@ -395,8 +395,29 @@ class Ctx:
             self.run.violation(key, what, replay, **kw)
 
 
+def split_kind(kind):
+    """kind is "synthetic" | "xml", optionally followed by "@<set>": the topology is restricted to that cpuset
+    after the load (the tools' --restrict, default flags: CPU-less memory and its parents are kept)"""
+    k, _, r = kind.partition("@")
+    return k, (r or None)
+
+
 def topo_args(kind, arg):
-    return ["-i", arg] if kind == "synthetic" else ["-i", arg, "--if", "xml"]
+    k, r = split_kind(kind)
+    base = ["-i", arg] if k == "synthetic" else ["-i", arg, "--if", "xml"]
+    return base + (["--restrict", r] if r else [])
+
+
+def ref_load(ref, tool, kind, arg):
+    """load (and restrict) in the reference the way the tool does; returns the reply lines of the final dump"""
+    k, r = split_kind(kind)
+    lines = ref.ask("topo %s %s %s" % (tool, k, arg))
+    if r and lines and lines[0] == "load rc=0":
+        l2 = ref.ask("restrict 0 %s" % r)
+        if not l2 or l2[0] != "restrict rc=0":
+            return ["load rc=-3"]
+        return ["load rc=0"] + l2[1:]
+    return lines
 
 
 def replay_text(kind, arg, tool, args, extra=""):
@@ -435,7 +456,7 @@ def check_calc_topology(ctx, kind, arg, ncmd, nmal, rng, corpus_cmds=()):
     ref = Ref(ctx.refexe)
     model_cases = []
     try:
-        lines = ref.ask("topo calc %s %s" % (kind, arg))
+        lines = ref_load(ref, "calc", kind, arg)
         if not lines or lines[0] != "load rc=0":
             ctx.bump("topology-not-loadable")
             return
@@ -461,8 +482,10 @@ def check_calc_topology(ctx, kind, arg, ncmd, nmal, rng, corpus_cmds=()):
                 if r:
                     c["ast"], c["out"] = r
             cmds.append(c)
+        cpuless = info.has_cpuless()
+        run.cov["topologies_with_cpuless_objects"] = run.cov.get("topologies_with_cpuless_objects", 0) + (1 if cpuless else 0)
         for _ in range(ncmd):
-            cmds.append(G.gen_cmdline(rng, info))
+            cmds.append(G.gen_cmdline(rng, info, mem=rng.random() < (0.7 if cpuless else 0.2)))
         for cmd in cmds:
             args = cmd["args"]
             rc, out, err = tool(args)
@@ -771,7 +794,7 @@ def check_lstopo(ctx, kind, arg, tag):
     lst = ctx.tools["lstopo-no-graphics"]
     ref = Ref(ctx.refexe)
     try:
-        lines = ref.ask("topo lstopo %s %s" % (kind, arg))
+        lines = ref_load(ref, "lstopo", kind, arg)
         if not lines or lines[0] != "load rc=0":
             return
         dump0 = lines[1:]
@@ -829,12 +852,21 @@ def check_lstopo(ctx, kind, arg, tag):
                     try:
                         l2 = ref2.ask("topo lstopo synthetic " + m.group(2))
                         r2 = ref2.ask("synexport 0")
-                        if not l2 or l2[0] != "load rc=0" or not r2 or r2[0] != r[0]:
+                        if "@" in kind and (not r2 or r2[0] != r[0]):
+                            # a restricted topology is not what the synthetic backend builds from its own export
+                            # (memory sizes, OS indexes of removed PUs): export fixed point is C07's matter
+                            ctx.bump("lstopo-syn-reload-differs-restricted-topology")
+                        elif kind != "synthetic" and l2 and l2[0] == "load rc=0" and r2 and r2[0] != r[0] and \
+                                re.sub(r"\(memory=\d+\)|^syn \d+", "", r2[0]) == re.sub(r"\(memory=\d+\)|^syn \d+", "", r[0]):
+                            # a NUMA node without memory is exported as [NUMANode] and reloaded with the synthetic
+                            # backend's default size: not a property of the tool (recorded as drift)
+                            ctx.bump("lstopo-syn-reload-default-memory-drift")
+                        elif not l2 or l2[0] != "load rc=0" or not r2 or r2[0] != r[0]:
                             ctx.violation("lstopo-syn-reload:" + tag, "synthetic output %r does not reload to the same description (%r)" % (m.group(2), r2),
                                           replay_text(kind, arg, "lstopo-no-graphics", ["--of", "synthetic"]))
                         else:
                             ctx.bump("lstopo-syn-reload-equal")
-                            if kind == "synthetic" and struct_dump(l2[1:]) != struct_dump(dump0):
+                            if kind == "synthetic" and struct_dump(l2[1:]) != struct_dump(dump0):   # not for restricted ones
                                 ctx.violation("lstopo-syn-reload-structure:" + tag, "topology reloaded from the synthetic export has another structure",
                                               replay_text(kind, arg, "lstopo-no-graphics", ["--of", "synthetic"]))
                     finally:
@@ -978,7 +1010,7 @@ def check_distrib(ctx, kind, arg, tag, rng):
     dis = ctx.tools["hwloc-distrib"]
     ref = Ref(ctx.refexe)
     try:
-        lines = ref.ask("topo distrib %s %s" % (kind, arg))
+        lines = ref_load(ref, "distrib", kind, arg)
         if not lines or lines[0] != "load rc=0":
             return
         info = G.Info(lines[1:])
@@ -1164,6 +1196,26 @@ def check(run, replay=None):
             topos.append(("synthetic", s))
         for _ in range(nsyn):
             topos.append(("synthetic", TS.gen_synthetic(rng, max_pus=48)))
+        # restricted topologies: CPU-less NUMA nodes (and their CPU-less parents) outside the kept PUs
+        for r, s in [("0x3", "pack:2 die:2 [numa] pu:2"), ("0x5", "pack:2 [numa] core:2 pu:2"), ("0x30", "numa:3 core:2 pu:1"),
+                     ("0xc", "pack:2 [numa] die:2 [numa] pu:2"), ("0x1", "group:2 [numa] pack:2 [numa] pu:1")]:
+            topos.append(("synthetic@" + r, s))
+        k = 0
+        while k < (12 if thorough else 4):
+            s = TS.gen_synthetic(rng, max_pus=32)
+            if "numa" not in s or "indexes" in s:
+                continue
+            n = 1
+            for m in re.finditer(r":(\d+)", s):
+                n *= int(m.group(1))
+            mask = 0
+            for b in range(n):
+                if rng.random() < 0.35:
+                    mask |= 1 << b
+            if mask == 0 or mask == (1 << n) - 1:
+                mask = 1
+            topos.append(("synthetic@0x%x" % mask, s))
+            k += 1
         xmls = [p for p in TS.xml_corpus() if os.path.getsize(p) < (2000000 if thorough else 150000)]
         rng.shuffle(xmls)
         for p in xmls[: (40 if thorough else 7)]:
@@ -1187,7 +1239,7 @@ def check(run, replay=None):
                 check_lstopo(ctx, kind, arg, tag)
             for k in range(3 if thorough else 1):
                 check_diff_patch(ctx, kind, arg, "%s-%d" % (tag, k), r)
-            if i % 2 == 1 or thorough:
+            if (i % 2 == 1 or thorough) and "@" not in kind:
                 check_distrib(ctx, kind, arg, tag, r)
 
         # corpus topologies that are not in the list get their own entry
